@@ -15,6 +15,9 @@
 //! euler parameters near +-pi and +-pi/2, incl. parameters that cross +-pi during the solve; 2D: part turned by 90..180
 //! degrees either way), far-away parts (10x .. 100x the part size, guess within 0.2 units / 3 degrees, both modes),
 //! exactly representable configurations whose solve ends on residuals that are exactly 0.0, sample sets of >= 4096 points.
+//! ROUND 3 (run_minimal, same clauses + "is accepted"): sample sets with EXACTLY as many points as parameters - 3D: 6 points in
+//! the 3-2-1 locating scheme on three mutually orthogonal faces of the box (3 arrangements) and a 7-point control; 2D: 3 points
+//! 2-1 on two perpendicular edges (2 arrangements per outline) and a 4-point control; 3 displacements x 2 guesses (x both modes).
 use super::Report;
 use crate::common::DistMode;
 use crate::geom2::align2::points_to_curve;
@@ -494,11 +497,76 @@ fn run2_round2(r: &mut Report) {
     eval2(r, &v, &curve, &pts, &disp, &Iso2::identity(), true, &d);
 }
 
+
+// ---------------------------------------------------------------------------------------------- round 3: minimal sample sets
+/// EXACTLY as many points as parameters: 6 points in the 3-2-1 locating scheme on three mutually orthogonal faces of the box
+/// (3D, 6 parameters), 3 points in the 2-1 scheme on two perpendicular edges of the outline (2D, 3 parameters); controls with
+/// one more point (7 / 4).  Every point stays at least 0.5 from the edges of its face / 0.75 from the corners of the outline,
+/// the displacements are small against that margin: each point keeps its face / edge and the problem is exactly determined.
+fn run_minimal(r: &mut Report) {
+    let mesh = Mesh::create_box(4.0, 3.0, 2.0, false);
+    let t = box_tris(&mesh);
+    let p3 = |x: f64, y: f64, z: f64| Point3::new(x, y, z);
+    let sets3: Vec<(&str, Vec<Point3>)> = vec![
+        ("6 points, 3-2-1: 3 on z=0, 2 on y=0, 1 on x=0", vec![p3(0.5, 0.5, 0.0), p3(3.5, 0.5, 0.0), p3(2.0, 2.5, 0.0), p3(0.5, 0.0, 1.0), p3(3.5, 0.0, 1.0), p3(0.0, 1.5, 1.0)]),
+        ("6 points, 3-2-1: 3 on x=4, 2 on z=2, 1 on y=3", vec![p3(4.0, 0.5, 0.5), p3(4.0, 2.5, 0.5), p3(4.0, 1.5, 1.5), p3(0.5, 0.75, 2.0), p3(3.5, 2.25, 2.0), p3(2.0, 3.0, 1.0)]),
+        ("6 points, 3-2-1: 3 on y=3, 2 on x=0, 1 on z=2", vec![p3(0.5, 3.0, 0.5), p3(3.5, 3.0, 0.5), p3(2.0, 3.0, 1.5), p3(0.0, 0.5, 0.5), p3(0.0, 2.5, 1.5), p3(2.0, 1.5, 2.0)]),
+        ("7 points (control): 3 on z=0, 2 on y=0, 1 on x=0, 1 on z=2", vec![p3(0.5, 0.5, 0.0), p3(3.5, 0.5, 0.0), p3(2.0, 2.5, 0.0), p3(0.5, 0.0, 1.0), p3(3.5, 0.0, 1.0), p3(0.0, 1.5, 1.0), p3(2.0, 1.5, 2.0)]),
+    ];
+    let disps3: Vec<(&str, Iso3)> = vec![
+        ("translation (0.05,-0.03,0.04)", iso3((0.05, -0.03, 0.04), (0.0, 0.0, 0.0))),
+        ("euler (0.01,-0.02,0.015) + (0.02,0.01,-0.03)", iso3((0.02, 0.01, -0.03), (0.01, -0.02, 0.015))),
+        ("-2 degrees about (1,1,1) + (-0.03,0.02,0.05)", Iso3::from_parts(Translation3::new(-0.03, 0.02, 0.05), rot3((1.0, 1.0, 1.0), -2.0 * std::f64::consts::PI / 180.0).rotation)),
+    ];
+    let guesses3: Vec<(&str, Iso3)> = vec![("identity", Iso3::identity()), ("small: euler (0.005,0.005,-0.005) + (0.01,-0.01,0.01)", iso3((0.01, -0.01, 0.01), (0.005, 0.005, -0.005)))];
+    for (sn, base) in sets3.iter() { for (dn, disp) in disps3.iter() { for (gn, guess) in guesses3.iter() { for to_point in [false, true] {
+        let pts: Vec<Point3> = base.iter().map(|p| disp * p).collect();
+        let d = || format!("3D box 4x3x2, sample set [{}] {:?}, displacement {}, guess {}, mode {}", sn, base.iter().map(|p| (p.x, p.y, p.z)).collect::<Vec<_>>(), dn, gn, if to_point { "ToPoint" } else { "ToPlane" });
+        let mode = if to_point { DistMode::ToPoint } else { DistMode::ToPlane };
+        let ok = points_to_mesh(&pts, &mesh, guess, mode).is_ok();
+        r.check(ok, "3D: a sample set with exactly as many points as parameters (6 points, 3-2-1 on three faces of the box; 7 as control), displaced inside the basin, is accepted and aligned (Ok)", d);
+        eval3(r, &t, &mesh, &pts, disp, guess, to_point, true, &d);
+    } } } }
+    // 2D: 3 parameters
+    let p2 = |x: f64, y: f64| Point2::new(x, y);
+    let shapes: Vec<(&str, Vec<Point2>, Vec<(&str, Vec<Point2>)>)> = vec![
+        ("closed rectangle 4x3", vec![p2(0.0, 0.0), p2(4.0, 0.0), p2(4.0, 3.0), p2(0.0, 3.0), p2(0.0, 0.0)], vec![
+            ("3 points, 2-1: 2 on y=0, 1 on x=0", vec![p2(1.0, 0.0), p2(3.0, 0.0), p2(0.0, 1.5)]),
+            ("3 points, 2-1: 2 on x=4, 1 on y=3", vec![p2(4.0, 0.75), p2(4.0, 2.25), p2(2.0, 3.0)]),
+            ("4 points (control): 2 on y=0, 1 on x=0, 1 on y=3", vec![p2(1.0, 0.0), p2(3.0, 0.0), p2(0.0, 1.5), p2(2.0, 3.0)]),
+        ]),
+        ("closed L outline (0,0),(6,0),(6,2),(3,2),(3,4),(0,4)", vec![p2(0.0, 0.0), p2(6.0, 0.0), p2(6.0, 2.0), p2(3.0, 2.0), p2(3.0, 4.0), p2(0.0, 4.0), p2(0.0, 0.0)], vec![
+            ("3 points, 2-1: 2 on y=0, 1 on x=6", vec![p2(1.0, 0.0), p2(5.0, 0.0), p2(6.0, 1.0)]),
+            ("3 points, 2-1: 2 on x=0, 1 on the inner edge y=2", vec![p2(0.0, 1.0), p2(0.0, 3.0), p2(4.5, 2.0)]),
+            ("4 points (control): 2 on y=0, 1 on x=6, 1 on y=4", vec![p2(1.0, 0.0), p2(5.0, 0.0), p2(6.0, 1.0), p2(1.5, 4.0)]),
+        ]),
+    ];
+    let deg = std::f64::consts::PI / 180.0;
+    let disps2: Vec<(&str, Iso2)> = vec![
+        ("(0.04,-0.03) + 0.02 rad", Iso2::translation(0.04, -0.03) * Iso2::rotation(0.02)),
+        ("(0.05,0.05) + 3 degrees", Iso2::translation(0.05, 0.05) * Iso2::rotation(3.0 * deg)),
+        ("(-0.05,0.0) - 3 degrees", Iso2::translation(-0.05, 0.0) * Iso2::rotation(-3.0 * deg)),
+    ];
+    let guesses2: Vec<(&str, Iso2)> = vec![("identity", Iso2::identity()), ("(0.01,-0.01) + 0.005 rad", Iso2::translation(0.01, -0.01) * Iso2::rotation(0.005))];
+    for (shn, verts, sets) in shapes.iter() {
+        let curve = Curve2::from_points(verts, 1e-8, true).unwrap();
+        let v = curve.points().to_vec();
+        for (sn, base) in sets.iter() { for (dn, disp) in disps2.iter() { for (gn, guess) in guesses2.iter() {
+            let pts: Vec<Point2> = base.iter().map(|q| disp * q).collect();
+            let d = || format!("2D {}, sample set [{}] {:?}, displacement {}, guess {}", shn, sn, base.iter().map(|q| (q.x, q.y)).collect::<Vec<_>>(), dn, gn);
+            let ok = points_to_curve(&pts, &curve, guess).is_ok();
+            r.check(ok, "2D: a sample set with exactly as many points as parameters (3 points, 2-1 on two perpendicular edges; 4 as control), displaced inside the basin, is accepted and aligned (Ok)", d);
+            eval2(r, &v, &curve, &pts, disp, guess, true, &d);
+        } } }
+    }
+}
+
 pub fn run() -> Option<Report> {
-    let mut r = Report::new("3D: box 4x3x2, sample sets A (54 points on the faces) and B (lifted 0.02..0.08 off the faces + 6 edge-closest points + 2 bit-identical repeats), 6 displacements (translations <= 0.05, rotations <= 3 degrees, one of size 3e-5) x 4 starting guesses (identity, small, pitch exactly -90 / +90 degrees plus roll) x {ToPlane, ToPoint}; 2D: closed L outline and 4x3 rectangle, sets A (7 points per edge) and B (offset -0.03..0.03 along the normal + 2 corner-closest points + 2 repeats), 6 displacements x 2 guesses; ROUND 2 (same clauses, same shapes): starting guesses with large rotations - 3D: 11 guesses with roll / pitch / yaw near +-pi and +-pi/2 (roll and yaw +-(pi-0.02) with the answer at +-(pi+0.03) so that the euler parameter crosses +-pi during the solve, roll exactly pi, yaw exactly -pi, pitch pi-0.02, quarter turns, mixed) x 8 small corrections (<= 0.05 units, <= 0.05 rad) x both sample sets x both modes; 2D: part turned by +-90, +-120, +-135, +-170, +-175, 180 degrees x 3 guesses within (0.05, 3 degrees) of the correction; far-away parts - 3D: 4 displacements of 54 .. 540 units (10x .. 100x the part size) x 2 guesses within 0.2 units / 3 degrees x both modes, 2D: 4 displacements of 72 .. 720 units x 2 guesses; exactly representable configurations (dyadic samples, pure dyadic translations, identity / dyadic translation guesses; several end with all residuals exactly 0.0 after one solver step): 3D 5 x 3 x both modes, 2D 6 per shape; large sample sets: 3D 4374 points (27x27 grid per face up to 1/64 from the edges) in both modes, 2D 4200 points on the L outline; recovery tolerance 1e-6, residual tolerance 1e-9 relative");
+    let mut r = Report::new("3D: box 4x3x2, sample sets A (54 points on the faces) and B (lifted 0.02..0.08 off the faces + 6 edge-closest points + 2 bit-identical repeats), 6 displacements (translations <= 0.05, rotations <= 3 degrees, one of size 3e-5) x 4 starting guesses (identity, small, pitch exactly -90 / +90 degrees plus roll) x {ToPlane, ToPoint}; 2D: closed L outline and 4x3 rectangle, sets A (7 points per edge) and B (offset -0.03..0.03 along the normal + 2 corner-closest points + 2 repeats), 6 displacements x 2 guesses; ROUND 2 (same clauses, same shapes): starting guesses with large rotations - 3D: 11 guesses with roll / pitch / yaw near +-pi and +-pi/2 (roll and yaw +-(pi-0.02) with the answer at +-(pi+0.03) so that the euler parameter crosses +-pi during the solve, roll exactly pi, yaw exactly -pi, pitch pi-0.02, quarter turns, mixed) x 8 small corrections (<= 0.05 units, <= 0.05 rad) x both sample sets x both modes; 2D: part turned by +-90, +-120, +-135, +-170, +-175, 180 degrees x 3 guesses within (0.05, 3 degrees) of the correction; far-away parts - 3D: 4 displacements of 54 .. 540 units (10x .. 100x the part size) x 2 guesses within 0.2 units / 3 degrees x both modes, 2D: 4 displacements of 72 .. 720 units x 2 guesses; exactly representable configurations (dyadic samples, pure dyadic translations, identity / dyadic translation guesses; several end with all residuals exactly 0.0 after one solver step): 3D 5 x 3 x both modes, 2D 6 per shape; large sample sets: 3D 4374 points (27x27 grid per face up to 1/64 from the edges) in both modes, 2D 4200 points on the L outline; ROUND 3: MINIMAL sample sets (as many residuals as parameters) - 3D: 6 points in the 3-2-1 locating scheme on three mutually orthogonal faces of the box (3 arrangements, every point >= 0.5 from the edges of its face) and one 7-point control x 3 displacements (<= 0.05 units, <= 2 degrees) x 2 guesses x both modes; 2D: 3 points 2-1 on two perpendicular edges (2 arrangements per outline) and one 4-point control x 3 displacements x 2 guesses: the set is accepted (Ok), recovered within 1e-6 and the residual clauses hold; recovery tolerance 1e-6, residual tolerance 1e-9 relative");
     run3(&mut r);
     run2(&mut r);
     run3_round2(&mut r);
     run2_round2(&mut r);
+    run_minimal(&mut r);
     Some(r)
 }
